@@ -516,6 +516,13 @@ impl Basic {
                     // address: the application (or its keep-alive) sends something
                     let inc = self.client_incs[0];
                     if !w.conns[inc as usize].conn.is_closed() {
+                        // an endpoint that rebinds its own socket (quinn::Endpoint::rebind) tells
+                        // its connections, which then move on to a fresh remote connection ID; a
+                        // NAT rebinding happens behind the endpoint's back
+                        if w.ch.chance("op.rebind_known", 1, 3) {
+                            w.conn_mut(inc).local_address_changed();
+                            w.faults.hit("local_address_changed");
+                        }
                         w.conn_mut(inc).ping();
                     }
                 }
